@@ -116,60 +116,58 @@ def isIncreasing : List Rat → Bool
   | [_] => true
   | a :: b :: t => decide (a ≤ b) && isIncreasing (b :: t)
 
-/-- `post_init_check`: equal lengths (assert), both bounds increasing -/
+/-- `np.any(left > right)` -/
+def anyGt (l r : List Rat) : Bool := (List.zipWith (fun a b => decide (b < a)) l r).any id
+
+/-- `post_init_check`: equal lengths (assert), both bounds increasing, bounds do not cross -/
 def pboxCheck (l r : List Rat) : Except Err (List Rat × List Rat) :=
   if l.length ≠ r.length then .error .Assertion
-  else if isIncreasing l && isIncreasing r then .ok (l, r)
-  else .error .Other
+  else if !(isIncreasing l && isIncreasing r) then .error .Other
+  else if anyGt l r then .error .Other
+  else .ok (l, r)
 
 /-- `Pbox.__init__`: `left_right_switch` (exchange when `left ≥ right` everywhere), then the checks -/
 def pboxInit (l r : List Rat) : Except Err (List Rat × List Rat) :=
   if allGe l r then pboxCheck r l else pboxCheck l r
 
-structure Out where
-  left : List Rat
-  right : List Rat
+/-- mean and variance intervals -/
+structure Mom where
   meanLo : Rat
   meanHi : Rat
   varLo : Rat
   varHi : Rat
   deriving Repr, Inhabited, DecidableEq
 
-/-- finite path of `_parametric_bounds_array` + `Leaf`: envelope of the rows, hull of the moments -/
+/-- `mom = none`: the constructor was handed `mean = var = None` and derives the moments from
+    the bounds itself (LP / ECDF estimate — not modelled) -/
+structure Out where
+  left : List Rat
+  right : List Rat
+  mom : Option Mom
+  deriving Repr, Inhabited, DecidableEq
+
+/-- the family's moments are used only when compatible with the discretised support `[lo, hi]`:
+    means inside it, largest variance at most a quarter of its squared width -/
+def momentsFit (lo hi mlo mhi vhi : Rat) : Bool :=
+  decide (lo ≤ mlo) && decide (mhi ≤ hi) && decide (vhi ≤ (hi - lo) * (hi - lo) / 4)
+
+/-- finite path of `_parametric_bounds_array` + `Leaf`: envelope of the rows, hull of the moments
+    (when they fit `[Left[0], Right[-1]]`) -/
 def boundsFin (es : List Entry) : Except Err Out :=
   let means := es.map (·.mean)
   let vars := es.map (·.var)
   let rows := es.map (·.row)
-  match pboxInit (colMin rows) (colMax rows) with
-  | .error e => .error e
-  | .ok (l, r) => .ok ⟨l, r, minL 0 means, maxL 0 means, minL 0 vars, maxL 0 vars⟩
-
-/-- Python `min` over floats some of which are NaN (`none`): `if y < m: m = y` -/
-def pyMinO : List (Option Rat) → Option Rat
-  | [] => none
-  | x :: xs => xs.foldl (fun m y => match y, m with
-      | some b, some a => if b < a then some b else some a
-      | _, _ => m) x
-
-def pyMaxO : List (Option Rat) → Option Rat
-  | [] => none
-  | x :: xs => xs.foldl (fun m y => match y, m with
-      | some b, some a => if b > a then some b else some a
-      | _, _ => m) x
-
-/-- `Interval(lo, hi)` on possibly-NaN endpoints: the assertion `lo <= hi` is false with a NaN -/
-def ivlOK : Option Rat → Option Rat → Bool
-  | some a, some b => decide (a ≤ b)
-  | _, _ => false
-
-/-- some corner gave NaN: the moment intervals may trip the assertion (depends on
-    where the NaN sits, Python's `min`), otherwise the NaN envelope is "not increasing" -/
-def boundsNaN (es : List (Option Entry)) : Err :=
-  let means := es.map (fun e => e.map (·.mean))
-  let vars := es.map (fun e => e.map (·.var))
-  if !ivlOK (pyMinO means) (pyMaxO means) then .Assertion
-  else if !ivlOK (pyMinO vars) (pyMaxO vars) then .Assertion
-  else .Other
+  let L := colMin rows
+  let R := colMax rows
+  match L.head?, R.getLast? with
+  | some lo, some hi =>
+    let mom : Option Mom :=
+      if momentsFit lo hi (minL 0 means) (maxL 0 means) (maxL 0 vars)
+      then some ⟨minL 0 means, maxL 0 means, minL 0 vars, maxL 0 vars⟩ else none
+    match pboxInit L R with
+    | .error e => .error e
+    | .ok (l, r) => .ok ⟨l, r, mom⟩
+  | _, _ => .error .Index
 
 def allSome : List (Option Entry) → Option (List Entry)
   | [] => some []
@@ -179,7 +177,7 @@ def allSome : List (Option Entry) → Option (List Entry)
 def bounds (es : List (Option Entry)) : Except Err Out :=
   match allSome es with
   | some fs => boundsFin fs
-  | none => .error (boundsNaN es)
+  | none => .error .Other   -- a NaN corner: moments not finite ⇒ `None`; the NaN envelope is "not increasing"
 
 /-- the parameter box of a call: positional parameters, then keyword parameters
     (`[wc_scalar_interval(b) for b in args]`, the same for `kwargs.values()`, then `to_numpy`) -/
@@ -228,7 +226,7 @@ def uniform (n : Nat) (pa pb : PSpec) : Except Err Out :=
       if ¬ vlo ≤ vhi then .error .Assertion else
       match pboxInit (linspace a.lo b.lo n) (linspace a.hi b.hi n) with
       | .error e => .error e
-      | .ok (l, r) => .ok ⟨l, r, mlo, mhi, vlo, vhi⟩
+      | .ok (l, r) => .ok ⟨l, r, some ⟨mlo, mhi, vlo, vhi⟩⟩
 
 /-- `Staircase(left=ra, right=rb)`; rows with NaN/inf (`none`) are never increasing -/
 def staircaseO (ra rb : Option (List Rat)) : Except Err (List Rat × List Rat) :=
@@ -249,10 +247,10 @@ def exponentialByLambda (p : PSpec) (ra rb : Option (List Rat)) : Except Err Out
       else if ¬ 1 / (hi * hi) ≤ 1 / (lo * lo) then .error .Assertion
       else
         match staircaseO ra rb with
-        | .ok (l, r) => .ok ⟨l, r, 1 / hi, 1 / lo, 1 / (hi * hi), 1 / (lo * lo)⟩
+        | .ok (l, r) => .ok ⟨l, r, some ⟨1 / hi, 1 / lo, 1 / (hi * hi), 1 / (lo * lo)⟩⟩
         | .error _ =>
           match staircaseO rb ra with
-          | .ok (l, r) => .ok ⟨l, r, 1 / hi, 1 / lo, 1 / (hi * hi), 1 / (lo * lo)⟩
+          | .ok (l, r) => .ok ⟨l, r, some ⟨1 / hi, 1 / lo, 1 / (hi * hi), 1 / (lo * lo)⟩⟩
           | .error e => .error e
     else
       -- non-positive rates (outside the property; `lo ≤ hi` assumed): numpy gives 1/0 = inf
